@@ -2280,6 +2280,7 @@ class TaskPool:
         """
         # task prerequisites
         itask.force_satisfy(prereqs, set_all)
+        self.data_store_mgr.delta_task_prerequisite(itask)
         # xtriggers, including "all"
         self.xtrigger_mgr.force_satisfy(itask, xtrigs)
 
